@@ -8,6 +8,10 @@
   tools/seeded.py run <id> [<PROP> ...]   re-run checks (default: the owning
         property's quick check) against seeded/<id>/patch.diff
   tools/seeded.py all                      re-run every seeded change
+  tools/seeded.py sweep [seeds] [jobs]     every seeded change against its
+        owner's quick check under several generator seeds (default 1,2,3;
+        4 at a time); writes seeded/SWEEP.json and lists the changes that
+        some seed misses -- a catch must not depend on the luck of a seed
 
 Scratch copies live under mktemp -d and are removed afterwards.
 """
@@ -152,3 +156,30 @@ if __name__ == "__main__":
         for sid in sorted(os.listdir(SEEDED)):
             if os.path.exists(os.path.join(SEEDED, sid, "meta.json")):
                 rerun(sid)
+    elif cmd == "sweep":
+        from concurrent.futures import ThreadPoolExecutor
+        seeds = [int(x) for x in (sys.argv[2] if len(sys.argv) > 2
+                                  else "1,2,3").split(",")]
+        jobs = int(sys.argv[3]) if len(sys.argv) > 3 else 4
+        ids = sorted(d for d in os.listdir(SEEDED)
+                     if os.path.exists(os.path.join(SEEDED, d, "meta.json")))
+        os.environ.setdefault("VERIF_WORKERS", "4")
+
+        def one(sid):
+            with open(os.path.join(SEEDED, sid, "meta.json")) as f:
+                prop = json.load(f)["property"]
+            out = {}
+            for sd in seeds:
+                r = run_checks(os.path.join(SEEDED, sid, "patch.diff"),
+                               [prop], seed=sd)
+                out[str(sd)] = r[prop]["exit"]
+            print(sid, out, flush=True)
+            return sid, out
+        with ThreadPoolExecutor(jobs) as ex:
+            res = dict(ex.map(one, ids))
+        with open(os.path.join(SEEDED, "SWEEP.json"), "w") as f:
+            json.dump({"seeds": seeds, "results": res}, f, indent=1,
+                      sort_keys=True)
+        weak = {k: v for k, v in res.items() if any(x != 1
+                                                    for x in v.values())}
+        print("missed under some seed:", json.dumps(weak, indent=1))
